@@ -380,11 +380,11 @@ orc_executor_emulate (OrcExecutor *ex)
         if (var->vartype == ORC_VAR_TYPE_SRC) {
           opcode_ex[j].src_ptrs[k] =
             ORC_PTR_OFFSET(ex->arrays[insn->src_args[k]],
-                ex->params[insn->src_args[k]]*m_index);
+                (orc_int64)ex->params[insn->src_args[k]]*m_index);
         } else if (var->vartype == ORC_VAR_TYPE_DEST) {
           opcode_ex[j].src_ptrs[k] =
             ORC_PTR_OFFSET(ex->arrays[insn->src_args[k]],
-                ex->params[insn->src_args[k]]*m_index);
+                (orc_int64)ex->params[insn->src_args[k]]*m_index);
         }
       }
       for(k=0;k<ORC_STATIC_OPCODE_N_DEST;k++) {
@@ -394,7 +394,7 @@ orc_executor_emulate (OrcExecutor *ex)
         if (var->vartype == ORC_VAR_TYPE_DEST) {
           opcode_ex[j].dest_ptrs[k] =
             ORC_PTR_OFFSET(ex->arrays[insn->dest_args[k]],
-                ex->params[insn->dest_args[k]]*m_index);
+                (orc_int64)ex->params[insn->dest_args[k]]*m_index);
         }
       }
     }
